@@ -266,7 +266,7 @@ def generate(ctx):
         ctx.extra["py_3_threads"] = "all %d maximal schedules" % len(all3)
     else:
         canon = [s for s in all3 if canonical(s)]
-        pick = rng.sample(canon, min(len(canon), 1200))
+        pick = rng.sample(canon, min(len(canon), 800))
         ctx.extra["py_3_threads"] = "%d sampled from the %d maximal schedules with threads first appearing in order " \
                                     "0,1,2 (= all %d up to renaming of threads); thorough replays all" % (
                                         len(pick), len(canon), len(all3))
